@@ -159,3 +159,16 @@ Theorem parse_rejects_bad_member : forall P data i,
   fst (gens_parse P data) = None.
 Proof. exact BpppProofs.parse_rejects_bad_member. Qed.
 Print Assumptions parse_rejects_bad_member.
+
+Theorem prove_length : forall P tr rho gens nv lv cv pf,
+  is_pow2 (Z.of_nat (length nv)) = true -> is_pow2 (Z.of_nat (length lv)) = true ->
+  norm_prove P tr rho gens nv lv cv = Some pf ->
+  Z.of_nat (length pf) = 65 * Z.max (Z.log2 (Z.of_nat (length nv))) (Z.log2 (Z.of_nat (length lv))) + 64.
+Proof. exact BpppProofs.prove_length. Qed.
+Print Assumptions prove_length.
+
+Theorem prove_total : forall P tr rho gens nv lv cv,
+  is_pow2 (Z.of_nat (length nv)) = true -> is_pow2 (Z.of_nat (length lv)) = true ->
+  exists pf, norm_prove P tr rho gens nv lv cv = Some pf.
+Proof. exact BpppProofs.prove_total. Qed.
+Print Assumptions prove_total.
